@@ -59,17 +59,19 @@ def main():
     translated = None
     TIES = {"C13": ("pyramid", "PyramidSrc", "PyramidSrcP", "toasty/pyramid.py", "position algebra and generators"),
             "C08": ("study", "StudySrc", "StudySrcP", "toasty/study.py", "StudyTiling model"),
-            "C17": ("paths", "PathSrc", "PathSrcP", "toasty/pyramid.py (class PyramidIO, tile naming)", "naming model (Model/Paths.v)")}
+            "C17": ("paths", "PathSrc", "PathSrcP", "toasty/pyramid.py (class PyramidIO, tile naming)", "naming model (Model/Paths.v)"),
+            "C07": ("script", "ScriptSrc", "ScriptSrcP", "toasty/fits_tiler.py (FitsTiler._tile_toast)", "script of calls (Model/TileToastScript.v)")}
     if pid in TIES:
         import hashlib
         import py2coq
         which, gen, prf, srcname, what = TIES[pid]
         try:
             text = {"pyramid": py2coq.translate_pyramid, "study": py2coq.translate_study,
-                    "paths": py2coq.translate_paths}[which](common.REPO)
+                    "paths": py2coq.translate_paths, "script": py2coq.translate_script}[which](common.REPO)
             funcs = {"pyramid": py2coq.PYRAMID_FUNCS,
                      "study": ["next_highest_power_of_2"] + ["StudyTiling." + m for m in py2coq.STUDY_METHODS],
-                     "paths": ["PyramidIO." + m for m in py2coq.PATH_METHODS]}[which]
+                     "paths": ["PyramidIO." + m for m in py2coq.PATH_METHODS],
+                     "script": ["FitsTiler._tile_toast"]}[which]
             translated = dict(source=srcname, functions=funcs, sha256=hashlib.sha256(text.encode()).hexdigest()[:16])
             tree_file = common.COQ / "theories" / "Generated" / (gen + ".v")
             if not tree_file.exists() or tree_file.read_text() != text:
